@@ -216,6 +216,20 @@ def main():
                            env=dict(os.environ, PYVC_REPO=REPO, PYTHONPATH=HERE))
         ok = p.returncode == 0
         fact_results.append({'name': fc['name'], 'ok': ok, 'output': (p.stdout + p.stderr)[-1500:]})
+    # 0c. bounded stand-ins run natively on the real code (labelled bounded, never counted as proved)
+    native_results = []
+    for nc in cfg.get('native_checks', []):
+        outp = os.path.join(HERE, 'replays', pid, '_native_%s.json' % nc['name'])
+        p = subprocess.run([VENV_PY] + nc['cmd'] + [tier, str(seed), outp], cwd=HERE, capture_output=True, text=True,
+                           env=dict(os.environ, PYVC_REPO=REPO, PYTHONPATH=HERE))
+        try:
+            r = json.load(open(outp))
+        except Exception:
+            r = {'error': (p.stdout + p.stderr)[-1500:], 'violations': []}
+        r['name'] = nc['name']
+        r['rc'] = p.returncode
+        r['bound'] = nc.get('bound', '')
+        native_results.append(r)
     # 1. lemmas (serial: later lemmas may use earlier ones)
     lemma_reports = {}
     for name in ctx.registry.lemma_order:
@@ -391,6 +405,25 @@ def main():
                     undecided.append(('bounded:' + fk, outp))
             else:
                 undecided.append(('unsupported:' + fk, ''))
+    for nr in native_results:
+        bounded.append({'function': 'native:' + nr['name'], 'reason': ['bounded by design: ' + nr.get('bound', '')],
+                        'evaluations': nr.get('evaluations'), 'valid': nr.get('distinct'), 'error': nr.get('error'),
+                        'sections': nr.get('sections')})
+        if nr.get('error') or nr.get('rc') == 3:
+            checker_failures.append('native check %s failed to run: %s' % (nr['name'], str(nr.get('error'))[-400:]))
+        byclass = {}
+        for v in nr.get('violations', []):
+            byclass.setdefault(v.get('class', 'other'), v)
+        for cls, v in byclass.items():
+            oname = 'bounded:%s:%s' % (nr['name'], cls)
+            f = known_match(oname)
+            if f is not None:
+                known_hits.append((f, oname))
+                continue
+            rfile = os.path.join('replays', pid, 'native_%s_%s.json' % (nr['name'], re.sub(r'\W+', '_', cls)[:60]))
+            json.dump({'property': pid, 'obligation': oname, 'kind': 'bounded-stand-in', 'violation': v},
+                      open(os.path.join(HERE, rfile), 'w'), indent=1, default=str)
+            violations.append((oname, rfile, ''))
     for fr in fact_results:
         if not fr['ok']:
             rfile = os.path.join('replays', pid, 'fact_' + re.sub(r'\W+', '_', fr['name']) + '.json')
